@@ -115,6 +115,8 @@ class Calls:
                         else:
                             out += self.call_function(m[0], m[1], [a], {}, s1, line, f"{m[0].name}.__str__")
                 return out
+            if f in ("any", "all") and len(n.args) == 1 and isinstance(n.args[0], (ast.GeneratorExp, ast.ListComp)):
+                return self.ev_anyall(n, st, f)
             if f in ("max", "min") and len(n.args) == 1 and not n.keywords:
                 return self.ev_minmax(n, st, f)
             if f in ("list", "dict", "set") and not n.args and not n.keywords:
@@ -226,6 +228,52 @@ class Calls:
             else:
                 raise Unsupported(f"{f}() of {c.ty}")
             out.append((s1, SV(mk_int(m), T.INT)))
+        return out
+
+    def ev_anyall(self, n: ast.Call, st: St, f: str):
+        """any/all(E(x) for x in <list | dict view> [if C(x)]) with side-effect free E, C (evaluated as pure expressions)."""
+        g = n.args[0]
+        if len(g.generators) != 1:
+            raise Unsupported("any/all over several generators")
+        gen = g.generators[0]
+        it = gen.iter
+        mode, base = "plain", it
+        if isinstance(it, ast.Call) and isinstance(it.func, ast.Attribute) and it.func.attr in ("values", "keys", "items") and not it.args:
+            mode, base = it.func.attr, it.func.value
+        out = []
+        for s1, c in self.ev(base, st):
+            ct = T.strip_opt(c.ty)
+            loc = dict(s1.loc)
+            if ct.k == "dict":
+                k = z3.Const(f"k!aa{next(_fresh)}", V)
+                guard = self.dict_has(s1, c, k)
+                key, val = SV(k, ct.a[0]), SV(self.dict_val(s1, c, k), ct.a[1])
+                bound = k
+                if mode in ("plain", "keys"):
+                    binds = {gen.target.id: key} if isinstance(gen.target, ast.Name) else None
+                elif mode == "values":
+                    binds = {gen.target.id: val} if isinstance(gen.target, ast.Name) else None
+                else:
+                    binds = {gen.target.elts[0].id: key, gen.target.elts[1].id: val} if isinstance(gen.target, ast.Tuple) and len(gen.target.elts) == 2 else None
+            elif ct.k in ("list", "vtuple", "tuple"):
+                k = z3.Const(f"j!aa{next(_fresh)}", IntS)
+                guard = z3.And(0 <= k, k < self.list_len(s1, c))
+                bound = k
+                binds = {gen.target.id: SV(self.list_get(s1, c, k), self.elem_type(ct))} if isinstance(gen.target, ast.Name) else None
+            else:
+                raise Unsupported(f"{f}() over {c.ty}")
+            if binds is None:
+                raise Unsupported(f"{f}() generator target shape")
+            loc.update(binds)
+            sp = SpecEval(self, s1, loc, s1.entry, cur_class=self.cur_class)
+            cond = z3.And([sp.boolean(t) for t in gen.ifs]) if gen.ifs else z3.BoolVal(True)
+            body = sp.boolean(g.elt)
+            if f == "any":
+                res = z3.Exists([bound], z3.And(guard, cond, body))
+            else:
+                res = z3.ForAll([bound], z3.Implies(z3.And(guard, cond), body))
+            self.assumptions_used.add("any()/all() over a generator: the element expression is evaluated as a pure expression (no exceptions, no effects)")
+            out.append((s1, SV(mk_bool(res), T.BOOL)))
         return out
 
     def ev_minmax_gen(self, n: ast.Call, g: ast.GeneratorExp, st: St, f: str):
@@ -554,7 +602,7 @@ class Calls:
             if mod == "alloc":
                 continue
             if mod.startswith("*"):
-                key = "f." + mod[1:]
+                key = mod[1:] if mod[1:] in ("llen", "lel", "dhas", "dval", "dsize") else "f." + mod[1:]
                 st.heap[key] = fresh("hv_" + mod[1:], heap_sort(key))
                 continue
             if mod.startswith("list(") or mod.startswith("dict("):
